@@ -1383,3 +1383,55 @@ Proof.
   rewrite (parse_string_roundtrip s [] _ Hs Hp); [reflexivity|].
   rewrite app_length. pose proof (body_length s). cbn [length]. lia.
 Qed.
+
+(* ---- pause -> resume ------------------------------------------------------------------ *)
+
+Lemma noise_ok_from_app_l : forall cs1 cs2 acc, noise_ok_from acc (cs1 ++ cs2) = true -> noise_ok_from acc cs1 = true.
+Proof.
+  induction cs1 as [|[s|p] cs1 IH]; intros cs2 acc H; cbn [app noise_ok_from] in *.
+  - apply negb_true_iff. exact (noise_ok_from_acc _ _ H).
+  - eapply IH; exact H.
+  - apply andb_true_iff in H. destruct H as [H1 H2]. rewrite H1. cbn [andb]. eapply IH; exact H2.
+Qed.
+
+Lemma poll_model_all cs : noise_ok cs = true -> payloads_ok cs = true -> poll_model (render cs) = payloads_of cs.
+Proof.
+  intros Hn Hp. pose proof (polling_prefixes cs (length (render cs)) Hn Hp) as H.
+  rewrite firstn_all in H. rewrite H. apply delivered_upto_all. lia.
+Qed.
+
+Lemma render_app a b : render (a ++ b) = render a ++ render b.
+Proof.
+  induction a as [|[s|p] a IH]; [reflexivity| |]; rewrite <- app_comm_cons; cbn [render]; rewrite IH.
+  - rewrite app_assoc. reflexivity.
+  - rewrite <- !app_assoc. reflexivity.
+Qed.
+
+(* the resumed run appends cs2 to the paused run's stream cs1 (payloads may contain the
+   tag): a poll after the resume returns exactly the payloads of the new run *)
+Theorem resume_delivers_new_run cs1 cs2 :
+  noise_ok (cs1 ++ cs2) = true -> payloads_ok (cs1 ++ cs2) = true ->
+  seen_at_resume (render cs1) = length (payloads_of cs1) /\
+  poll_after_resume (render cs1) (render cs1 ++ render cs2) = payloads_of cs2.
+Proof.
+  intros Hn Hp. pose proof (noise_ok_from_app_l cs1 cs2 [] Hn) as Hn1.
+  pose proof Hp as Hp'. rewrite payloads_ok_app in Hp'. apply andb_true_iff in Hp'. destruct Hp' as [Hp1 _].
+  unfold poll_after_resume, seen_at_resume.
+  rewrite (poll_model_all cs1 Hn1 Hp1). split; [reflexivity|].
+  rewrite <- render_app, (poll_model_all _ Hn Hp), payloads_of_app.
+  rewrite skipn_app, skipn_all, Nat.sub_diag. reflexivity.
+Qed.
+
+(* counting tag prefixes instead: a payload with the tag in a string value is counted
+   twice, and the first report of the resumed run is never returned *)
+Definition resume_witness_1 : list chunk :=
+  [Report [123; 34; 110; 34; 58; 32; 34; 91; 116; 117; 110; 101; 45; 109; 101; 116; 114; 105; 99; 93; 58; 32; 123; 125; 34; 125]].
+  (* {"n": "[tune-metric]: {}"} *)
+Definition resume_witness_2 : list chunk := [Report [123; 34; 101; 34; 58; 32; 51; 125]].   (* {"e": 3} *)
+
+Lemma resume_count_tags_refuted :
+  exists cs1 cs2, noise_ok (cs1 ++ cs2) = true /\ payloads_ok (cs1 ++ cs2) = true /\
+    count_pre (render cs1) = 2%nat /\ length (payloads_of cs1) = 1%nat /\
+    skipn (count_pre (render cs1)) (poll_model (render cs1 ++ render cs2)) = [] /\
+    payloads_of cs2 <> [].
+Proof. exists resume_witness_1, resume_witness_2. repeat split; try reflexivity. discriminate. Qed.
